@@ -81,6 +81,24 @@ def strata(tier):
                     yield {"leaf": leaf, "container": cont}
 
 
+_strata0 = strata
+
+
+def strata(tier):  # noqa: F811
+    yield from _strata0(tier)
+    # big containers (above the sizes at which "optimised" paths tend to switch)
+    big_list = ZOO_LIST * 8
+    big_map = {f"k{i:03d}": ZOO_LIST[i % len(ZOO_LIST)] for i in range(150)}
+    big_map.update({i: i for i in range(60)})
+    for j in range(40 if tier == "quick" else 200):
+        rng = G.rng_for("C01-big", j)
+        cont = big_list if j % 2 else big_map
+        kind = rng.choice(["value", "value", "key" if type(cont) is dict else "index"])
+        vals, keys = G.pools(cont)
+        yield {"leaf": G.leaf(rng, kind=kind, well_typed=rng.random() < 0.7, pool=vals if kind == "value" else keys, keypool=keys),
+               "container": cont}
+
+
 def budget(tier):
     return 100000 if tier == "quick" else 2000000
 
